@@ -105,4 +105,78 @@ Proof. intros H. unfold exec_opcode; closed_ifs. rewrite H. reflexivity. Qed.
 Lemma pic_equal e a b r : e_stack e = a :: b :: r ->
   exec_opcode low_s c e OP_EQUAL fe pc = with_stack e ((if bytes_eqb b a then [1] else []) :: r).
 Proof. pic H. Qed.
+
+(* ------------------------------------------------------------ control flow, verification, hashing, small integers *)
+(* the boolean the executed OP_IF / OP_NOTIF reads must be minimal ([] or [1]) in tapscript, and in witness v0 under MINIMALIF *)
+Definition nonminimal_bool (v : bytes) : bool := (1 <? zlen v) || ((zlen v =? 1) && negb (hd 0 v =? 1)).
+Definition minimalif_rule (c : cfg) : Z :=
+  if c_sigver c =? SV_TAPSCRIPT then SCRIPT_ERR_TAPSCRIPT_MINIMALIF
+  else if (c_sigver c =? SV_WITNESS_V0) && has_flag (c_flags c) SCRIPT_VERIFY_MINIMALIF then SCRIPT_ERR_MINIMALIF else 0.
+
+(* executed OP_IF / OP_NOTIF: consumes the top element; the new nesting level is its truth value (negated for NOTIF); a non-minimal
+   boolean is an error exactly where the minimal-if rule applies *)
+Ltac fin_if H := rewrite ?Bool.andb_false_r; unfold ok, popn, set_cond, set_stack; rewrite H; cbn [skipn e_script e_cb e_stack e_alt e_cond e_ops e_pos e_ed e_err]; reflexivity.
+Lemma pic_if_exec e a r (notif : bool) : e_stack e = a :: r ->
+  exec_opcode low_s c e (if notif then OP_NOTIF else OP_IF) true pc =
+  if nonminimal_bool a && negb (minimalif_rule c =? 0) then fail e (minimalif_rule c)
+  else (set_cond (set_stack e r) (cs_push (e_cond e) (if notif then negb (cast_to_bool a) else cast_to_bool a)), SOk).
+Proof.
+  intros H. unfold exec_opcode, minimalif_rule. destruct notif; closed_ifs;
+  (unfold ssize, llen; rewrite H; cbn [length];
+   destruct (Z.ltb_spec (Z.of_nat (S (length r))) 1); [exfalso; lia|];
+   unfold stop; rewrite H; cbn [nth Nat.sub]; fold (nonminimal_bool a);
+   destruct (c_sigver c =? SV_TAPSCRIPT) eqn:Et; cbn [andb];
+   [destruct (nonminimal_bool a); cbn [andb negb]; [reflexivity|fin_if H]|];
+   destruct ((c_sigver c =? SV_WITNESS_V0) && has_flag (c_flags c) SCRIPT_VERIFY_MINIMALIF) eqn:Ew; cbn [andb];
+   [destruct (nonminimal_bool a); cbn [andb negb]; [reflexivity|fin_if H]|];
+   rewrite Bool.andb_false_r; fin_if H).
+Qed.
+Lemma pic_if_exec_empty e (notif : bool) : e_stack e = [] ->
+  exec_opcode low_s c e (if notif then OP_NOTIF else OP_IF) true pc = fail e SCRIPT_ERR_UNBALANCED_CONDITIONAL.
+Proof. intros H. unfold exec_opcode. destruct notif; closed_ifs; unfold ssize, llen; rewrite H; reflexivity. Qed.
+(* OP_IF / OP_NOTIF in a branch that is not executed: one more (false) nesting level, nothing else *)
+Lemma pic_if_skipped e (notif : bool) :
+  exec_opcode low_s c e (if notif then OP_NOTIF else OP_IF) false pc = (set_cond e (cs_push (e_cond e) false), SOk).
+Proof. unfold exec_opcode. destruct notif; closed_ifs; reflexivity. Qed.
+Lemma pic_else e : exec_opcode low_s c e OP_ELSE fe pc =
+  if cs_empty (e_cond e) then fail e SCRIPT_ERR_UNBALANCED_CONDITIONAL else (set_cond e (cs_toggle (e_cond e)), SOk).
+Proof. unfold exec_opcode. closed_ifs. reflexivity. Qed.
+Lemma pic_endif e : exec_opcode low_s c e OP_ENDIF fe pc =
+  if cs_empty (e_cond e) then fail e SCRIPT_ERR_UNBALANCED_CONDITIONAL else (set_cond e (cs_pop (e_cond e)), SOk).
+Proof. unfold exec_opcode. closed_ifs. reflexivity. Qed.
+Lemma pic_verify e a r : e_stack e = a :: r ->
+  exec_opcode low_s c e OP_VERIFY fe pc = if cast_to_bool a then with_stack e r else fail e SCRIPT_ERR_VERIFY.
+Proof. pic H. Qed.
+Lemma pic_return e : exec_opcode low_s c e OP_RETURN fe pc = fail e SCRIPT_ERR_OP_RETURN.
+Proof. unfold exec_opcode. closed_ifs. reflexivity. Qed.
+Lemma pic_nop e : exec_opcode low_s c e OP_NOP fe pc = (e, SOk).
+Proof. unfold exec_opcode. closed_ifs. reflexivity. Qed.
+
+(* the five hash opcodes replace the top element by its digest *)
+Lemma pic_hash e a r opcode : e_stack e = a :: r -> In opcode [OP_RIPEMD160; OP_SHA1; OP_SHA256; OP_HASH160; OP_HASH256] ->
+  exec_opcode low_s c e opcode fe pc =
+  with_stack e ((if opcode =? OP_RIPEMD160 then h_ripemd160 (c_hash c) a
+                 else if opcode =? OP_SHA1 then h_sha1 (c_hash c) a
+                 else if opcode =? OP_SHA256 then h_sha256 (c_hash c) a
+                 else if opcode =? OP_HASH160 then h_ripemd160 (c_hash c) (h_sha256 (c_hash c) a)
+                 else h_sha256 (c_hash c) (h_sha256 (c_hash c) a)) :: r).
+Proof.
+  intros H Hin. cbn [In] in Hin. destruct Hin as [E|[E|[E|[E|[E|[]]]]]]; subst opcode; pic H.
+Qed.
+
+(* OP_1NEGATE, OP_1 .. OP_16 push the number *)
+Lemma pic_smallint e opcode : opcode = OP_1NEGATE \/ OP_1 <= opcode <= OP_16 ->
+  exec_opcode low_s c e opcode fe pc = with_stack e (sn_serialize (opcode - 80) :: e_stack e).
+Proof.
+  intros Hr. unfold exec_opcode.
+  assert (Hx: is_extended_op opcode = false).
+  { unfold is_extended_op. apply Bool.not_true_is_false. intros Ht. apply existsb_exists in Ht. destruct Ht as (x & Hi & He).
+    apply Z.eqb_eq in He. subst x. revert Hi. vm_compute. intros Hi.
+    repeat (destruct Hi as [Hi|Hi]; [subst opcode; destruct Hr as [Hr|Hr]; [discriminate Hr|vm_compute in Hr; destruct Hr as [H1 H2]; try (apply H1; reflexivity); try (apply H2; reflexivity)]|]).
+    exact Hi. }
+  rewrite Hx.
+  assert (Hg: (opcode =? OP_1NEGATE) || ((OP_1 <=? opcode) && (opcode <=? OP_16)) = true).
+  { destruct Hr as [Hr|[H1 H2]]; [subst; reflexivity|]. apply Bool.orb_true_iff. right. apply Bool.andb_true_iff. split; apply Z.leb_le; assumption. }
+  rewrite Hg. reflexivity.
+Qed.
 End Pictures.
